@@ -377,17 +377,29 @@ def cdist(a, b, metric='euclidean'):
     if not has_sym(a) and not has_sym(b):
         from scipy.spatial.distance import cdist as real
         return real(a.astype(float), b.astype(float), metric)
-    out = real_np.empty((len(a), len(b)), dtype=object)
+    if metric not in ('cityblock', 'sqeuclidean', 'euclidean'):
+        raise Unsupported(metric)
+    # rows without a symbolic coordinate are paired by the real scipy routine; only pairs that involve a symbolic row build terms (keeps
+    # structures of hundreds of concrete atoms with a few symbolic ones cheap)
+    from scipy.spatial.distance import cdist as real
+    sa = [any(isinstance(v, Sym) for v in x) for x in a]
+    sb = [any(isinstance(v, Sym) for v in y) for y in b]
+    fa = real_np.array([[0.0 if isinstance(v, Sym) else float(v) for v in x] for x in a], dtype=float).reshape(len(a), -1)
+    fb = real_np.array([[0.0 if isinstance(v, Sym) else float(v) for v in y] for y in b], dtype=float).reshape(len(b), -1)
+    out = real(fa, fb, metric).astype(object) if len(a) and len(b) else real_np.empty((len(a), len(b)), dtype=object)
+    anyb = any(sb)
     for i, x in enumerate(a):
+        if not sa[i] and not anyb:
+            continue
         for j, y in enumerate(b):
+            if not sa[i] and not sb[j]:
+                continue
             if metric == 'cityblock':
                 out[i, j] = core.SUM([abs(p - q) for p, q in zip(x, y)])
             elif metric == 'sqeuclidean':
                 out[i, j] = core.SUM([(p - q) * (p - q) for p, q in zip(x, y)])
             elif metric == 'euclidean':
                 out[i, j] = core.lazy_sqrt(core.SUM([(p - q) * (p - q) for p, q in zip(x, y)]))
-            else:
-                raise Unsupported(metric)
     return out
 
 
